@@ -222,9 +222,12 @@ func TestVerifC03(t *testing.T) {
 	big := []int{999999, 1000001, 3000000}
 	e2e := [][2]string{{"Content-Type", "text/plain"}, {"Set-Cookie", "a=1; Path=/"}, {"Set-Cookie", "b=2; HttpOnly"}, {"Set-Cookie", "c=3"}, {"Warning", "199 - \"one\""}, {"Warning", "299 - \"two\""},
 		{"X-Custom", "v1"}, {"X-Custom", ""}, {"x-lower-case", "lc"}, {"Cache-Control", "no-store"}, {"ETag", "\"abc\""}, {"Location", "/elsewhere?x=1"}, {"Vary", "Accept"}, {"Vary", "Cookie"},
-		{"X-Long", strings.Repeat("y", 6000)}, {"Content-Language", "en"}, {"Link", "</a>; rel=preload"}}
+		{"X-Long", strings.Repeat("y", 6000)}, {"Content-Language", "en"}, {"Link", "</a>; rel=preload"},
+		// end-to-end fields whose names resemble hop-by-hop ones
+		{"Proxy-Status", "verif; error=none"}, {"Proxy-Authentication-Info", "nextnonce=x"}, {"Proxy-Cache-Hit", "1"}, {"Connection-Info", "c"}, {"Keep-Alive-Hint", "k"},
+		{"Te-Deum", "t"}, {"Trailers", "not-trailer"}, {"Upgrade-Insecure-Requests", "1"}, {"X-Transfer-Encoding", "x"}}
 	hop := [][2]string{{"Keep-Alive", "timeout=5"}, {"Proxy-Authenticate", "Basic realm=x"}, {"Upgrade", "h2c"}, {"Proxy-Connection", "keep-alive"}, {"Connection", "X-Custom-Hop"}}
-	trailerNames := []string{"X-Trailer-A", "X-Trailer-B", "X-Checksum", "Server-Timing", "X-Trailer-E"}
+	trailerNames := []string{"X-Trailer-A", "X-Trailer-B", "X-Checksum", "Server-Timing", "X-Trailer-E", "Proxy-Status", "Upgrade-Hint"}
 	n := 110
 	if verifThorough() {
 		n = 3000
